@@ -49,10 +49,23 @@ PROGRAM_LEVEL = [
 ]
 
 
+# every operator symbol of the three theories in positions of the wrong arity, next to other operators (unary-only operators between two operands, binary-only
+# operators in front, operators at the end)
+ALL_OPS = ['~', '>', '>:', '>?', '>*', '>>', '<', '<:', '<?', '<*', '<<', '&', '|', '->', '<-', '<>', ';>', ';>:', '<;', '<:;', '-', '+', '*', '?', '.>?', '.>*', ';;']
+OP_SHAPES = ['a & b {O} c', 'a {O} b & c', '{O} a & b', 'a & {O} b', 'a | b {O} c {O} a', 'a {O} {O} b', '({O} a) | b {O}', '> a {O} b', 'a {O} > b']
+
+
 def inputs(ctx):
     rng = ctx.rng('inputs')
     out = []
     base = '#program always.\n{a;b;c}.\n'
+    for o in ALL_OPS:
+        for sh in OP_SHAPES:
+            f = sh.replace('{O}', o)
+            out.append(('operator-arity', base + '&tel { %s } :- c.\n' % f))
+            out.append(('operator-arity', base + ':- not &tel { %s }.\n' % f))
+            if o in ('+', '*', '?', ';;', '.>?', '.>*', '&', '-', '~', '>'):
+                out.append(('operator-arity', base + ':- not &del { %s }.\n' % f))
     for f in WEIRD_TEL:
         for c in (CONTEXTS if not ctx.quick else rng.sample(CONTEXTS, 4)):
             out.append(('tel-body', base + c.format(T='tel', F=f) + '\n'))
